@@ -216,9 +216,12 @@ def c10_neighbours(n, seed, procs):
     path = os.path.join(HERE, "ref_neighbours.json")
     if not os.path.exists(path): return dict(evaluations=0, distinct=0, failures=[], samples=[])
     tab = json.load(open(path))
+    far = os.path.join(HERE, "ref_far.json")          # tuples FAR from the suite's (mk_neighbours.py far): other regimes of the closed forms, L != 1, many iterations
+    if os.path.exists(far): tab = tab + json.load(open(far))
     rnd = random.Random(seed * 911 + 7)
     idx = list(range(len(tab)))
     if n < len(tab):
+        idx = [i for i in idx if tab[i].get("seconds", 0) <= 30]          # the slowest tuples (16 iterations of the large examples) are left to the thorough tier
         # stratified: every example module first, cheapest tuples first inside a module
         by = {}
         for i in idx: by.setdefault(tab[i]["module"], []).append(i)
